@@ -114,6 +114,23 @@ impl FraudProof for BadEncodingFraudProof {
                 (AxisType::Col, AxisType::Col) => header.dah.column_root(self.index).unwrap(),
             };
 
+            // The share has to be proven at its own position of the proof axis,
+            // otherwise any other share committed by the same root would do.
+            let leaf_idx = match (self.axis, proof_axis) {
+                (AxisType::Row, AxisType::Row) | (AxisType::Col, AxisType::Col) => share_idx,
+                (AxisType::Row, AxisType::Col) | (AxisType::Col, AxisType::Row) => {
+                    usize::from(self.index)
+                }
+            };
+
+            if proof.start_idx() as usize != leaf_idx || proof.end_idx() as usize != leaf_idx + 1 {
+                bail_validation!(
+                    "share {share_idx} is proven at {}..{} instead of index {leaf_idx}",
+                    proof.start_idx(),
+                    proof.end_idx(),
+                );
+            }
+
             proof
                 .verify_range(&root, &[&share], **namespace)
                 .map_err(Error::RangeProofError)?;
@@ -149,7 +166,9 @@ impl FraudProof for BadEncodingFraudProof {
         let mut nmt = Nmt::default();
 
         for (n, share) in rebuilt_shares.iter().enumerate() {
-            let ns = if n < ods_width {
+            // only the first quadrant holds original data, everything
+            // else is in the parity namespace
+            let ns = if n < ods_width && usize::from(self.index) < ods_width {
                 // safety: length must be correct
                 Namespace::from_raw(&share[..NS_SIZE]).unwrap()
             } else {
